@@ -101,9 +101,46 @@ XmiBad(s) ==
          /\ SubSeq(file, 23, 34) = XTag("CAT ") \o BE32(4 + 2 * Len(form)) \o XTag("XMID") /\ Len(file) = 34 + 2 * Len(form)
       THEN {} ELSE {"iff-layout"})
 
+\* ---------------------------------------------------------------- the player session (Fmt = "session")
+(* every history of <= MaxLen selections / loads on one player: the fold of XmiRef!SessSelect / SessLoad / SessLoadUndefined
+   (the state the trace monitors carry from file to file) against formulations over the WHOLE history:
+     last-file   what is loaded, and the song count, depend on the LAST load of the history only
+     in-range    the delivered song is always a song of the loaded file; the reading "the last request, answered by this
+                 file" is always among the readings
+     exact       a last request that is in range for every file loaded after it (and for the file loaded when it was made)
+                 has exactly one reading: itself                                                                         *)
+SessAlphabet ==
+  { [a |-> "sel", k |-> k] : k \in 0..3 } \cup
+  { [a |-> "load", kind |-> "xmi", n |-> n, ok |-> TRUE] : n \in 1..3 } \cup
+  { [a |-> "load", kind |-> "xmi", n |-> 2, ok |-> FALSE], [a |-> "load", kind |-> "mus", n |-> 1, ok |-> TRUE],
+    [a |-> "load", kind |-> "smf", n |-> 1, ok |-> TRUE], [a |-> "undef", m |-> 0], [a |-> "undef", m |-> 2] }
+SessStep(S, x) == CASE x.a = "sel" -> SessSelect(S, x.k) [] x.a = "load" -> SessLoad(S, x.kind, x.n, x.ok) [] OTHER -> SessLoadUndefined(S, x.m)
+RECURSIVE SessFold(_, _)
+SessFold(h, i) == IF i = 0 THEN Sess0 ELSE SessStep(SessFold(h, i - 1), h[i])
+SessBad(h) ==
+  LET S == SessFold(h, Len(h))
+      loads == { i \in DOMAIN h : h[i].a # "sel" }
+      sels == { i \in DOMAIN h : h[i].a = "sel" }
+      lastOf(I) == CHOOSE i \in I : \A j \in I : j <= i
+      xmiAt(i) == h[i].a = "load" /\ h[i].kind = "xmi" /\ h[i].ok
+      xmiNow == loads # {} /\ xmiAt(lastOf(loads))
+      nNow == IF xmiNow THEN h[lastOf(loads)].n ELSE 0
+      req == IF sels = {} THEN 0 ELSE h[lastOf(sels)].k
+      since == IF sels = {} THEN 0 ELSE lastOf(sels)
+      \* the ranges the last request has met: the file loaded when it was made and every file loaded after it
+      before == { i \in loads : i < since }
+      met == { i \in loads : i > since } \cup (IF before = {} THEN {} ELSE {lastOf(before)})
+      fits(i) == CASE xmiAt(i) -> req < h[i].n [] h[i].a = "undef" -> h[i].m = 0 \/ req < h[i].m [] OTHER -> TRUE
+  IN (IF SessXmi(S) = xmiNow /\ (xmiNow => S.n = nNow) /\ \A c \in 0..8 : SessCountOK(S, c) <=> (IF xmiNow THEN c = nNow ELSE c <= 1)
+      THEN {} ELSE {"session-last-file"}) \cup
+     (IF /\ SessSongs(S) # {} /\ SessSongs(S) \subseteq (IF xmiNow THEN 0..(nNow - 1) ELSE {0})
+         /\ xmiNow => Clamp(req, 0, nNow - 1) \in SessSongs(S)
+      THEN {} ELSE {"session-in-range"}) \cup
+     (IF (xmiNow /\ \A i \in met : fits(i)) => SessSongs(S) = {req} THEN {} ELSE {"session-exact"})
+
 \* ----------------------------------------------------------------
-Alphabet == IF Fmt = "mus" THEN MusAlphabet ELSE XmiAlphabet
-Judge(s) == IF Fmt = "mus" THEN MusBad(s) ELSE XmiBad(s)
+Alphabet == IF Fmt = "mus" THEN MusAlphabet ELSE IF Fmt = "session" THEN SessAlphabet ELSE XmiAlphabet
+Judge(s) == IF Fmt = "mus" THEN MusBad(s) ELSE IF Fmt = "session" THEN SessBad(s) ELSE XmiBad(s)
 Init == sc = <<>> /\ bad = Judge(<<>>) \cup (IF Fmt = "mus" THEN WideBad ELSE {})
 Next == /\ Len(sc) < MaxLen
         /\ \E x \in Alphabet : sc' = Append(sc, x) /\ bad' = Judge(Append(sc, x))
